@@ -134,6 +134,27 @@ theorem all_run (ops : List Op) : ∀ b : Backend, ∃ x, (run b ops).all = b.al
     exact ⟨x ++ y, by simp only [run]; rw [hy, hx, List.append_assoc]⟩
 
 
+/-- everything held after a history was held before or was submitted during it -/
+theorem mem_all_run (ops : List Op) : ∀ (b : Backend) (x : Leaf), x ∈ (run b ops).all → x ∈ b.all ∨ Op.submit x ∈ ops := by
+  induction ops with
+  | nil => intro b x h; exact Or.inl h
+  | cons op ops ih =>
+    intro b x h
+    simp only [run] at h
+    rcases ih (step b op) x h with h1 | h1
+    · cases op with
+      | read => exact Or.inl h1
+      | sequence k ts => simp only [step] at h1; rw [all_sequence] at h1; exact Or.inl h1
+      | submit c =>
+        simp only [step] at h1
+        rcases all_queue b c with ⟨e, _, _⟩ | ⟨e, _, _⟩
+        · rw [e] at h1; exact Or.inl h1
+        · rw [e, List.mem_append, List.mem_singleton] at h1
+          rcases h1 with h1 | h1
+          · exact Or.inl h1
+          · subst h1; exact Or.inr (List.mem_cons_self ..)
+    · exact Or.inr (List.mem_cons_of_mem _ h1)
+
 /-- `cget` with the regenerated miss condition `Gen.sigCacheMiss` spelled out: a hit iff the cached
     input equals the requested one (breaks if the source compares anything else). -/
 theorem cget_spec {Msg Sig : Type} [DecidableEq Msg] (c : Cache Msg Sig) (i : Msg) :
